@@ -314,6 +314,22 @@ def tie_cases(rng, n):
     return out
 
 
+def recurrence_cases(rng):
+    """RECURRING arguments after many distinct ones: blocks of 60 calls of one operation - 35 distinct operands, then the first
+    25 of them again - at the head of the plan, so that a block stays within one batch (one process, in order) of the direct
+    and of the FEEL run. A memo, a pool or a ring of recent results that goes wrong once it is full shows on the recurrence."""
+    out = []
+    for op, b in (("exp", None), ("ln", None), ("sqrt", None), ("pow", "3"), ("decimal", "2"), ("modulo", "7"), ("div", "7"), ("exp", None), ("ln", None), ("mul", "1.000000000000000000000000000000001")):
+        start = rng.randint(1, 40)
+        xs = [str(Decimal(start + i) / Decimal(rng.choice([1, 2, 4, 8]))) for i in range(35)]
+        xs = list(dict.fromkeys(xs))
+        while len(xs) < 35:
+            xs.append(str(Decimal(1000 + len(xs))))
+        for x in xs + xs[:25]:
+            out.append((op, x, b))
+    return out
+
+
 def gen_ops(rng, n):
     ops = []
     names = list(FEEL)
@@ -493,7 +509,7 @@ def run(rep, tier, seed):
         "direct FeelNumber operators whose signature cannot express null (+ - * / % round exp) are judged for non-finite results only through FEEL expressions",
     ]
     rng = rng_for(seed, "c02")
-    triples = tie_cases(rng, n_ties) + gen_ops(rng, n_random)
+    triples = recurrence_cases(rng) + tie_cases(rng, n_ties) + gen_ops(rng, n_random)
     # fixed regression anchors (quantifier corners)
     triples += [("mul", "1E+6144", "10"), ("add", "9.999999999999999999999999999999999E+6144", "1E+6111"), ("sub", "1E-6176", "1E-6176"), ("div", "1", "3"), ("div", "2", "3"),
                 ("even", "1E+40", None), ("odd", "1E+40", None), ("modulo", "1E+40", "3"), ("pow", "10", "6145"), ("pow", "0", "0"), ("pow", "0", "-1"), ("exp", "14200", None),
